@@ -121,3 +121,33 @@ Print Assumptions C06_source_with_ttl.
 Theorem C06_source_ttl : forall cell, run_ttl cell = Some (cell_ttl cell).
 Proof. exact tie_ttl. Qed.
 Print Assumptions C06_source_ttl.
+
+From Coq Require Import String.
+From Cache Require Import TieFailover.
+Open Scope string_scope.
+Open Scope Z_scope.
+
+(* refreshStale writes under a context with a TTL cell OF ITS OWN holding UpdateTTL (the caller's cell is not
+   involved); doBuild stores the built value under the build context itself (the caller's cell, lowered by the
+   builder); a background build runs under detachedContext, whose four methods are the layer LDetach of Ctx.v *)
+Theorem C06_source_refresh_and_store_contexts : forall x built_ok write_ok errwrite_ok,
+  (run_refresh fn_Failover_refreshStale x write_ok = Some (refresh_spec x write_ok) /\
+   run_refresh fn_FailoverOf_refreshStale x write_ok = Some (refresh_spec x write_ok)) /\
+  (run_do_build fn_Failover_doBuild x built_ok write_ok errwrite_ok = Some (do_build_spec x built_ok write_ok errwrite_ok) /\
+   run_do_build fn_FailoverOf_doBuild x built_ok write_ok errwrite_ok = Some (do_build_spec x built_ok write_ok errwrite_ok)).
+Proof. intros; split; [exact (tie_refresh_stale _ _)|exact (tie_do_build _ _ _ _)]. Qed.
+Print Assumptions C06_source_refresh_and_store_contexts.
+
+Theorem C06_source_detached_context :
+  run_dc fn_detachedContext_Deadline [] = Some [VRec "time.Time" []; VB false] /\
+  run_dc fn_detachedContext_Done [] = Some [VNil] /\
+  run_dc fn_detachedContext_Err [] = Some [VNil] /\
+  run_dc fn_detachedContext_Value [VPtr true "key"] = Some [VRec "parent's value for" [("key", VPtr true "key")]].
+Proof. exact tie_detached_context. Qed.
+Print Assumptions C06_source_detached_context.
+
+Theorem C06_source_ctx_sync : forall sync_update has_err,
+  run_ctx_sync fn_Failover_ctxSync sync_update has_err = Some (sync_update || has_err, negb (sync_update || has_err)) /\
+  run_ctx_sync fn_FailoverOf_ctxSync sync_update has_err = Some (sync_update || has_err, negb (sync_update || has_err)).
+Proof. exact tie_ctx_sync. Qed.
+Print Assumptions C06_source_ctx_sync.
